@@ -22,12 +22,14 @@ Section RoundTrip.
   Hypothesis name_not_in : ~ In name_attr ins.
   Hypothesis name_not_out : ~ In name_attr outs.
   Variable derive : list (option V) -> string -> option V.
+  Variable cleared : list string.
+  Variable cleared_value : string -> option V.
   Variable Bytes : Type.
   Variables (dumps : obj V -> Bytes) (loads : Bytes -> obj V).
   (* ASSUMED (external): pickle.load(pickle.dump(x)) has the same attributes with the same values *)
   Hypothesis loads_dumps : forall o a, loads (dumps o) a = o a.
 
-  Let calc := calculate_stats ins outs derive.
+  Let calc := calculate_stats ins outs derive cleared cleared_value.
 
   Lemma snapshot_ext (o1 o2 : obj V) :
     (forall a, In a ins -> o1 a = o2 a) -> snapshot ins o1 = snapshot ins o2.
@@ -54,12 +56,12 @@ Section RoundTrip.
      loaded: every attribute of the re-loaded record (estimates, every statistic and table) equals
      the attribute of the record that was written (whose only change is the pickle file name). *)
   Theorem pickle_roundtrip (raw : obj V) (n : V) (a : string) :
-    let saved := results_of_raw ins outs derive raw in
+    let saved := results_of_raw ins outs derive cleared cleared_value raw in
     let '(data', bytes) := write_pickle Bytes dumps name_attr saved n in
-    results_of_pickle ins outs derive Bytes loads bytes a = data' a.
+    results_of_pickle ins outs derive cleared cleared_value Bytes loads bytes a = data' a.
   Proof.
     cbn zeta. unfold write_pickle, results_of_pickle, results_of_raw. cbn beta iota zeta.
-    change (calculate_stats ins outs derive) with calc.
+    change (calculate_stats ins outs derive cleared cleared_value) with calc.
     set (saved := calc raw). set (data' := set_attr saved name_attr n).
     assert (Hsnap : snapshot ins (loads (dumps data')) = snapshot ins raw).
     { apply snapshot_ext. intros x Hx. rewrite loads_dumps. unfold data', set_attr.
@@ -68,7 +70,11 @@ Section RoundTrip.
       - apply calc_inputs. exact Hx. }
     unfold calc at 1. unfold calculate_stats. rewrite Hsnap.
     destruct (str_mem a outs) eqn:Ea; [|apply loads_dumps].
-    destruct (derive (snapshot ins raw) a) as [v|] eqn:Ed; [|apply loads_dumps].
+    destruct (derive (snapshot ins raw) a) as [v|] eqn:Ed.
+    2:{ destruct (str_mem a cleared) eqn:Ec; [|apply loads_dumps].
+        unfold data', set_attr. destruct (String.eqb a name_attr) eqn:E.
+        - apply String.eqb_eq in E. subst a. apply str_mem_In in Ea. contradiction.
+        - unfold saved, calc, calculate_stats. rewrite Ea, Ed, Ec. reflexivity. }
     unfold data', set_attr.
     destruct (String.eqb a name_attr) eqn:E.
     - apply String.eqb_eq in E. subst a. apply str_mem_In in Ea. contradiction.
@@ -90,14 +96,27 @@ Proof. apply str_mem_false. vm_compute. reflexivity. Qed.
 Lemma pickle_name_not_out : ~ In pickle_name_attr stats_outputs.
 Proof. apply str_mem_false. vm_compute. reflexivity. Qed.
 
+(* what _clear_stats resets is derived: every cleared attribute is one that _calculate_stats itself
+   assigns, none is an input (decided on the generated lists) *)
+Lemma cleared_are_outputs : forall a, In a stats_cleared -> In a stats_outputs /\ ~ In a stats_inputs.
+Proof.
+  assert (H : forallb (fun a => str_mem a stats_outputs && negb (str_mem a stats_inputs)) stats_cleared = true)
+    by (vm_compute; reflexivity).
+  rewrite forallb_forall in H. intros a Ha. specialize (H a Ha).
+  apply andb_true_iff in H. destruct H as [H1 H2]. split.
+  - apply str_mem_In. exact H1.
+  - apply str_mem_false. destruct (str_mem a stats_inputs); [discriminate|reflexivity].
+Qed.
+
 (* T14e instantiated with what the source reads and assigns *)
 Theorem pickle_roundtrip_results (V Bytes : Type) (derive : list (option V) -> string -> option V)
+    (cleared_value : string -> option V)
     (dumps : obj V -> Bytes) (loads : Bytes -> obj V) :
   (forall o a, loads (dumps o) a = o a) ->
   forall (raw : obj V) (n : V) (a : string),
-    let saved := results_of_raw stats_inputs stats_outputs derive raw in
+    let saved := results_of_raw stats_inputs stats_outputs derive stats_cleared cleared_value raw in
     let '(data', bytes) := write_pickle Bytes dumps pickle_name_attr saved n in
-    results_of_pickle stats_inputs stats_outputs derive Bytes loads bytes a = data' a.
+    results_of_pickle stats_inputs stats_outputs derive stats_cleared cleared_value Bytes loads bytes a = data' a.
 Proof.
   intros Hld. apply pickle_roundtrip; auto using stats_frame, pickle_name_not_in, pickle_name_not_out.
 Qed.
